@@ -314,7 +314,7 @@ def hand_corpus():
     S("HDelimNoTrailThenMore", chunked(array("names", "string", delimited=True, trailing=False), array("more", "char", optional=True), field("z", "char", optional=True)), rt=False)
     S("HOnlyOptLen", field("s", "string", length=3, optional=True), array("xs", "char", length=2, optional=True), rt=False)      # every guard of the class is a length check
     S("HOptStrBreakReq", chunked(field("a", "char"), brk(), field("note", "string", optional=True), brk(), field("z", "char")), rt=False)
-    # round 6: objects without instructions (the generated serialize() had an empty try block: fix d155a45)
+    # round 6: objects without instructions (the generated serialize() had an empty try block: fix f2d221e)
     S("HEmpty")
     S("HHoldsEmpty", field("a", "char"), field("e", "HEmpty"), field("z", "char"))
     K("Talk", "Accept", "net/client")
